@@ -25,6 +25,24 @@ REFL_KEY = "ctf:tautological-reflexive-atom-kept-as-factual-event"
 SUMEV_KEY = "ctftr:summed-variable-is-also-an-event-variable"
 WORLDS_KEY = "ctftr:event-holds-one-variable-in-two-worlds"
 SUMSUB_KEY = "ctftr:summed-variable-is-also-a-literal-subscript"
+DROPSUB_KEY = "ctftr:conditional-result-drops-subscript-values"
+FINALCHK_KEY = "ctftr:final-check-rejects-a-condition-absent-from-the-expression"
+EMPTYEV_KEY = "ctftr:inner-unconditional-query-gets-an-empty-event"
+
+
+def sum_binds_names(expr, names) -> bool:
+    from y0.dsl import Fraction, Product, Sum
+
+    def walk(e):
+        if isinstance(e, Sum):
+            return bool({r.name for r in e.ranges} & names) or walk(e.expression)
+        if isinstance(e, Product):
+            return any(walk(f) for f in e.expressions)
+        if isinstance(e, Fraction):
+            return walk(e.numerator) or walk(e.denominator)
+        return False
+
+    return walk(expr)
 
 
 def sum_binds_event_variable(expr, revent, subscripts=False) -> bool:
@@ -97,6 +115,22 @@ def run_ctftru(g: GSpec, ev, domains):
     return "ok", (res.expression, res.event)
 
 
+def run_ctftr(g: GSpec, gamma, delta, domains):
+    """Conditional procedure (Algorithm 3)."""
+    from y0.algorithm.counterfactual_transport import api
+
+    dgs, dd = build_inputs(g, domains)
+    outcomes, conditions = y0_pairs(gamma), y0_pairs(delta)
+    try:
+        api._validate_transport_conditional_counterfactual_query_input(outcomes=outcomes, conditions=conditions, target_domain_graph=g.to_nx(), domain_graphs=dgs, domain_data=dd)
+    except Exception as e:  # noqa: BLE001
+        return "rejected", f"{type(e).__name__}: {short(e, 100)}"
+    res = api.transport_conditional_counterfactual_query(outcomes=outcomes, conditions=conditions, target_domain_graph=g.to_nx(), domain_graphs=dgs, domain_data=dd)
+    if res is None:
+        return "fail", None
+    return "ok", (res.expression, res.event)
+
+
 def reading_env(revent):
     """Values for the unmarked variables of the expression from the returned event: a variable that is an event
     variable takes its event value; a variable that only occurs as a subscript takes the subscript's value.
@@ -131,7 +165,7 @@ def vocab(g, domains):
     return check
 
 
-def check_case(g, ev, domains, expr, revent, timeout_ms):
+def check_case(g, ev, domains, expr, revent, timeout_ms, delta=()):
     from y0.dsl import Zero
 
     out = {"queries": 0, "unsat": 0, "sat": 0, "unknown": 0, "secs": 0.0, "violation": None, "skip": None}
@@ -139,7 +173,13 @@ def check_case(g, ev, domains, expr, revent, timeout_ms):
     policy = {POPS[k]: set(Z) for k, (S, Z) in enumerate(domains)}
     model = SymL3(g, differs=differs, policy=policy)
     den = Denoter(model, default_pop="__plain__", vocab=vocab(g, domains))
-    truth = model.prob_cw(TARGET, atoms_for_model(ev))
+    truth = model.prob_cw(TARGET, atoms_for_model(tuple(ev) + tuple(delta)))
+    if delta:
+        pd = model.prob_cw(TARGET, atoms_for_model(delta))
+        if pd.is_zero():
+            out["skip"] = "impossible conditioning event"
+            return out
+        truth = truth / pd
     if isinstance(expr, Zero) or revent is None:
         if not truth.is_zero():
             out["violation"] = {"kind": "zero_for_possible_event", "why": "returned Zero although the event has positive probability in some model"}
@@ -151,7 +191,9 @@ def check_case(g, ev, domains, expr, revent, timeout_ms):
     stray = sorted(free_cp_names(expr) - set(env))
     # unmarked variables that the returned event does not fix: the value must not depend on them (all values tried)
     out["sum_binds_event"] = sum_binds_event_variable(expr, revent)
-    out["sum_binds_subscript"] = sum_binds_event_variable(expr, revent, subscripts=True)
+    query_subscripts = {n for _, s_, _ in tuple(ev) + tuple(delta) for n, _ in s_}
+    out["sum_binds_subscript"] = sum_binds_event_variable(expr, revent, subscripts=True) or sum_binds_names(expr, query_subscripts)
+    out["stray_subscripts"] = sorted((free_cp_names(expr) - set(env)) & query_subscripts)
     verdict, m = "unsat", None
     for vals in itt.product((0, 1), repeat=len(stray)):
         env2 = dict(env)
@@ -173,7 +215,9 @@ def check_case(g, ev, domains, expr, revent, timeout_ms):
             try:
                 w = exact.ExactL3(g, params, differs=differs, policy=policy)
                 a = exact.evaluate(expr, w, env, ienv=env, default_pop="__plain__")
-                b = w.prob_cw(TARGET, atoms_for_model(ev))
+                b = w.prob_cw(TARGET, atoms_for_model(tuple(ev) + tuple(delta)))
+                if delta:
+                    b = b / w.prob_cw(TARGET, atoms_for_model(delta))
             except Exception:  # noqa: BLE001
                 continue
             if a != b and b >= 0:
@@ -186,13 +230,15 @@ def check_case(g, ev, domains, expr, revent, timeout_ms):
 def work(job):
     g, cases, timeout_ms = job
     res = []
-    for ev, domains in cases:
-        rec = {"g": g.to_json(), "ev": [[a[0], [list(p) for p in a[1]], a[2]] for a in ev], "evs": ev_str(ev), "domains": [[sorted(S), sorted(Z)] for S, Z in domains]}
+    for case in cases:
+        ev, domains = case[0], case[1]
+        delta = case[2] if len(case) > 2 else ()
+        rec = {"g": g.to_json(), "ev": [[a[0], [list(p) for p in a[1]], a[2]] for a in ev], "evs": ev_str(ev) + (" | " + ev_str(delta) if delta else ""), "domains": [[sorted(S), sorted(Z)] for S, Z in domains], "delta": [[a[0], [list(p) for p in a[1]], a[2]] for a in delta]}
         try:
-            status, payload = run_ctftru(g, ev, domains)
+            status, payload = run_ctftr(g, ev, delta, domains) if delta else run_ctftru(g, ev, domains)
         except Exception as e:  # noqa: BLE001
             rec["status"] = "crash"
-            rec["exc"] = f"{type(e).__name__}: {short(e, 160)}"
+            rec["exc"] = f"{type(e).__name__}: {short(e, 260)}"
             res.append(rec)
             continue
         rec["status"] = status
@@ -201,7 +247,7 @@ def work(job):
             rec["est"] = str(expr)
             rec["revent"] = str(revent)
             try:
-                rec.update(check_case(g, ev, domains, expr, revent, timeout_ms))
+                rec.update(check_case(g, ev, domains, expr, revent, timeout_ms, delta))
             except Exception as e:  # noqa: BLE001
                 rec["harness_exc"] = f"{type(e).__name__}: {short(e, 200)}"
         elif status == "rejected":
@@ -266,8 +312,25 @@ def jobs_for(t):
                 if i % stride == offset % stride:
                     yield ev, [d1, d2]
 
+    def cond(g, stride, offset):
+        """(gamma, delta) single atoms over distinct base variables, consistent values, one domain."""
+        i = 0
+        atoms = [a for (a,) in events(g.nodes, 1, 1)]
+        for ga in atoms:
+            for de in atoms:
+                if ga[0] == de[0] or not consistent((ga, de)):
+                    continue
+                for d in domain_sets(g.nodes):
+                    i += 1
+                    if i % stride == offset % stride:
+                        yield (ga,), [d], (de,)
+
     fig2 = G("ZXWY", ["ZX", "ZY", "XY", "XW", "WY"], ["ZX", "WY"])
     if t == "quick":
+        for g in family(2, labellings=("fwd",), n_min=2):
+            add(g, cond(g, 1, 0))
+        for g in family(3, labellings=("fwd",), n_min=3):
+            add(g, cond(g, 37, seed()))
         for g in family(2, labellings=("fwd",)):
             add(g, one(g, events(g.nodes, 2, 1)))
             add(g, one(g, events(g.nodes, 2, 1), stride=7, offset=seed(), all_events=True))
@@ -277,6 +340,7 @@ def jobs_for(t):
         add(fig2, one(fig2, events(fig2.nodes, 1, 1), stride=13, offset=seed()))
     else:
         for g in family(3):
+            add(g, cond(g, 5, seed()))
             add(g, one(g, events(g.nodes, 2, 1), stride=3, offset=seed()))
             add(g, one(g, events(g.nodes, 2, 1), stride=31, offset=seed(), all_events=True))
             add(g, two(g, events(g.nodes, 1, 1), stride=41, offset=seed()))
@@ -295,7 +359,7 @@ def run() -> int:
         "returned expression -> z3 terms: target counterfactual probability in a symbolic response-type model, domain terms in per-domain copies of the marked tables and fresh policy distributions (vf/sem/l3.py)",
     ]
     rep.bounds = {
-        "procedure": "ONLY the unconditional procedure (ctfTRu / unconditional_cft) is exercised in this version; the conditional procedure (ctfTR) is not covered",
+        "procedure": "ctfTRu (transport_unconditional_counterfactual_query) and ctfTR (transport_conditional_counterfactual_query; single outcome atom given a single condition atom on distinct variables)",
         "target_graphs": "ADMGs <=3 nodes (one labelling quick, two thorough) and the 4-node running example of Correa et al. (Fig. 2)",
         "domains": "1 source domain (2 for a thin slice): any subset S of nodes carrying a transport node, policy set empty or one variable (its incoming edges removed in the selection diagram), joint PP[pi_k](V), topological order of the selection diagram",
         "events": "<=2 atoms, subscripts <=1; mainly events that give every variable one value (a subscript on an event variable repeats its value); a slice of arbitrary events",
@@ -319,14 +383,19 @@ def run() -> int:
             dom = "; ".join(f"{POPS[i]}: T->{','.join(S) or '-'} policy {','.join(Z) or '-'}" for i, (S, Z) in enumerate(r["domains"]))
             key = f"{g.key()} {r['evs']} [{dom}]"
             rep.count(r["status"])
-            base = {"property": PROP, "graph": r["g"], "event": r["ev"], "domains": r["domains"], "hashseed": hashseed()}
+            base = {"property": PROP, "graph": r["g"], "event": r["ev"], "delta": r.get("delta"), "domains": r["domains"], "hashseed": hashseed()}
             if r.get("harness_exc"):
                 rep.harness_errors.append(f"{key}: {r['harness_exc']}")
                 continue
             if r["status"] == "crash":
-                rep.add_violation(Violation(PROP, [key, "crash:" + r["exc"].split(":")[0]], f"ctfTRu raised {r['exc']} for {key}", dict(base, kind="crash", exc=r["exc"])))
+                keys = [key]
+                if r.get("delta") and r["exc"].startswith("KeyError") and "In final checks for transport_conditional_counterfactual_query" in r["exc"]:
+                    keys.append(FINALCHK_KEY)
+                if r.get("delta") and r["exc"].startswith("ValueError") and "empty list for the event" in r["exc"]:
+                    keys.append(EMPTYEV_KEY)
+                rep.add_violation(Violation(PROP, keys, f"ctfTR{'' if r.get('delta') else 'u'} raised {r['exc']} for {key}", dict(base, kind="crash", exc=r["exc"])))
                 continue
-            if r["status"] != "ok":
+            if r["status"] != "ok" or r.get("skip"):
                 continue
             rep.obligations += r["queries"]
             rep.discharged += r["unsat"]
@@ -346,13 +415,15 @@ def run() -> int:
                 rep.harness_errors.append(f"sat model did not replay for {key}")
                 continue
             keys = [key] + ([D12_KEY] if v["kind"] == "unevaluable" else [])
-            atoms = ev_from_json(r["ev"])
+            atoms = ev_from_json(r["ev"]) + ev_from_json(r.get("delta") or [])
             if v["kind"] in ("wrong", "zero_for_possible_event") and any(dict(s_).get(a) == val for a, s_, val in atoms):
                 keys.append(REFL_KEY)  # SIMPLIFY turns the tautology V_v = v into the factual event V = v (C19 finding)
             if v["kind"] == "wrong" and r.get("sum_binds_event"):
                 keys.append(SUMEV_KEY)
             if v["kind"] == "wrong" and r.get("sum_binds_subscript"):
                 keys.append(SUMSUB_KEY)
+            if v["kind"] == "wrong" and r.get("delta") and r.get("stray_subscripts"):
+                keys.append(DROPSUB_KEY)  # the expression depends on a subscript variable whose value the returned event lost
             by_base = {}
             for a, s_, _ in atoms:
                 by_base.setdefault(a, set()).add(tuple(sorted(s_)))
@@ -371,7 +442,8 @@ def replay(payload: dict) -> int:
     domains = [(frozenset(S), frozenset(Z)) for S, Z in payload["domains"]]
     print("graph", g.key(), "event", ev_str(ev), "domains", payload["domains"])
     try:
-        status, res = run_ctftru(g, ev, domains)
+        delta = ev_from_json(payload.get("delta") or [])
+        status, res = run_ctftr(g, ev, delta, domains) if delta else run_ctftru(g, ev, domains)
     except Exception as e:  # noqa: BLE001
         print(f"raised {type(e).__name__}: {e}")
         return 1 if payload["kind"] == "crash" else 0
@@ -379,7 +451,7 @@ def replay(payload: dict) -> int:
     if status != "ok" or payload["kind"] == "crash":
         print("not reproduced")
         return 0
-    out = check_case(g, ev, domains, res[0], res[1], 30000)
+    out = check_case(g, ev, domains, res[0], res[1], 30000, ev_from_json(payload.get("delta") or []))
     bad = out["violation"] is not None and out["violation"]["kind"] == payload["kind"]
     print(out["violation"])
     print("reproduced" if bad else "not reproduced")
